@@ -436,7 +436,7 @@ def composite_glyph(draw, glyphs):
         gid = draw(st.integers(0, len(glyphs) - 1))
         child_pts = npoints(glyphs, gid)
         flags = draw(st.sampled_from(_COMP_FLAGS))
-        trk = draw(st.sampled_from(["none", "none", "none", "scale", "xy", "2x2", "2x2"]))
+        trk = draw(st.sampled_from(["none", "none", "none", "scale", "xy", "2x2", "2x2", "2x2-sparse"]))
         if trk == "none":
             tr = None
         elif trk == "scale":
@@ -444,6 +444,13 @@ def composite_glyph(draw, glyphs):
             tr = [s, 0, 0, s]
         elif trk == "xy":
             tr = [draw(_F2DOT14), 0, 0, draw(_F2DOT14)]
+        elif trk == "2x2-sparse":
+            # structured matrices: shears, flips and 90-degree rotations have exact zeros / units in some entries
+            # while the others are general (the encoder chooses its form by testing entries against zero)
+            el = st.one_of(st.just(0), st.just(0), st.sampled_from([16384, -16384]), _F2DOT14)
+            tr = [draw(el), draw(el), draw(el), draw(el)]
+            if not tr[1] and not tr[2]:
+                tr[draw(st.sampled_from([1, 2]))] = draw(st.sampled_from([8192, -8192, 16384, -16384, 3277]))
         else:
             tr = [draw(_F2DOT14), draw(_F2DOT14), draw(_F2DOT14), draw(_F2DOT14)]
         if tr is None:
